@@ -413,6 +413,17 @@ structure OrigNHG where
   NextHop : List OrigNHGMember
   deriving DecidableEq, Repr, Inhabited
 
+/-- an installed next-hop-group as `Flush` looks at it (`*aft.Afts_NextHopGroup`): its backup
+group, a `*uint64` -/
+structure FlNHG where
+  BackupNextHopGroup : Option Nat
+  deriving DecidableEq, Repr, Inhabited
+
+/-- `rib.FlushErr`: the errors of the deletes that failed -/
+structure FlushErr where
+  Errs : List Status
+  deriving DecidableEq, Repr, Inhabited
+
 structure StringValue where
   Value : String
   deriving DecidableEq, Repr, Inhabited
@@ -597,6 +608,9 @@ inductive Eff where
   | delMPLS (ni : String) (e : Option LabelEntryC)
   | delNHG (ni : String) (e : Option NHGEntryC)
   | delNH (ni : String) (e : Option NHEntryC)
+  /-- `niR.locklessDeleteIPv4(key)` … called by `Flush` (`kind` = 4, 6, 1 MPLS, 2 group, 3 next-hop) -/
+  | flDelStr (kind : Nat) (ni : String) (key : String)
+  | flDelNat (kind : Nat) (ni : String) (key : Nat)
   /-- `decNHGRefCount(id)` / `decNHRefCount(id)` on the holder of instance `ni` -/
   | decNHGRef (ni : String) (id : Nat)
   | decNHRef (ni : String) (id : Nat)
